@@ -102,7 +102,16 @@ fn gen_cfg(rng: &mut StdRng) -> CaseCfg {
     let sc = |rng: &mut StdRng| Script { read_cap: [0usize, 1, 3, 100, 5000][rng.gen_range(0..5)], write_cap: [0usize, 1, 3, 100, 5000][rng.gen_range(0..5)], pending_permille: [0, 50, 300][rng.gen_range(0..3)], capacity: [0usize, 10, 1000, 100_000][rng.gen_range(0..4)], random_chunks: rng.gen_bool(0.5) };
     let nrev = rng.gen_range(0..=2);
     let rev_caps = (0..nrev).map(|_| ([0u32, 1, 2, 3][rng.gen_range(0..4)], [1u32, 2, 2, 5][rng.gen_range(0..4)])).collect();
-    CaseCfg { caps, rev_caps, mux_a: mc(rng), mux_b: mc(rng), script_a: sc(rng), script_b: sc(rng), clients_per_cap: rng.gen_range(1..6), streams_per_client: rng.gen_range(1..5) }
+    let caps: Vec<(u32, u32)> = caps;
+    let rev_caps: Vec<(u32, u32)> = rev_caps;
+    let (mut mux_a, mut mux_b) = (mc(rng), mc(rng));
+    // 60 %: enough frame slots that two well-behaved sides cannot block each other (see run_pair); 40 %: tiny limits
+    let need = 2 * caps.iter().chain(rev_caps.iter()).map(|(a, b)| (*a).min(*b) as u64).sum::<u64>() + 2;
+    if rng.gen_bool(0.6) {
+        mux_a.read_frame_count = need + rng.gen_range(0..30);
+        mux_b.read_frame_count = need + rng.gen_range(0..30);
+    }
+    CaseCfg { caps, rev_caps, mux_a, mux_b, script_a: sc(rng), script_b: sc(rng), clients_per_cap: rng.gen_range(1..6), streams_per_client: rng.gen_range(1..5) }
 }
 
 #[allow(clippy::too_many_arguments)]
@@ -172,7 +181,7 @@ async fn server_loop(ctx: &ctx::Ctx, sh: &Shared, q: StreamQueue, cap: u8, slot:
 async fn client_loop(ctx: &ctx::Ctx, sh: &Shared, q: StreamQueue, cap: u8, slot: usize, lim: i64, limits: (u32, u32), streams: usize, mut r: StdRng) -> Result<(), ()> {
     let c = cap;
     for _ in 0..streams {
-        let Ok(mut st) = q.open(ctx).await else { return Ok(()) };
+        let Ok(st) = q.open(ctx).await else { return Ok(()) };
         let now = sh.open_client[slot].fetch_add(1, Ordering::SeqCst) + 1;
         sh.max_open[slot].fetch_max(now, Ordering::SeqCst);
         if now > lim {
@@ -182,44 +191,59 @@ async fn client_loop(ctx: &ctx::Ctx, sh: &Shared, q: StreamQueue, cap: u8, slot:
         sh.ev(Ev::ClientOpened { cap: c, serial });
         let nwords = [1u32, 2, 5, 100, 2000, 40_000][r.gen_range(0..6)];
         let data = payload(1, c, serial, nwords);
-        let mut off = 0;
-        let mut wrote_all = true;
-        while off < data.len() {
-            let n = [8usize, 13, 100, 4096, 70_000][r.gen_range(0..5)].min(data.len() - off);
-            if st.write_all(ctx, &data[off..off + n]).await.is_err() {
-                wrote_all = false;
-                break;
-            }
-            off += n;
-            if r.gen_bool(0.3) {
-                let _ = st.flush(ctx).await;
-            }
-        }
-        if wrote_all {
-            sh.ev(Ev::ClientClosedWrite { serial, bytes: data.len() });
-        }
-        let mut rd = st.close_write();
-        // read the response until end of stream
-        let mut got = vec![];
-        let mut eos = false;
-        loop {
-            let want = [8usize, 64, 4000][r.gen_range(0..3)];
-            match rd.read_exact(ctx, want).await {
-                Ok(chunk) => {
-                    let short = chunk.len() < want;
-                    got.extend(chunk);
-                    if short {
-                        eos = true;
+        // The two halves are driven by two tasks: the reader drains from the very start (an early CLOSE of the server must not
+        // sit in the multiplexer while this side is still writing - with tiny frame-count limits on both sides that would be a
+        // deadlock of the workload, not of the multiplexer), the writer writes, flushes at random and closes.
+        let (mut rd, mut wr) = st.split();
+        let mut rw = <StdRng as rand::SeedableRng>::seed_from_u64(r.gen());
+        let mut r = <StdRng as rand::SeedableRng>::seed_from_u64(r.gen());
+        let res: Result<(Vec<u8>, bool), ()> = scope::run!(ctx, |ctx, s| async move {
+            let data = data;
+            s.spawn(async move {
+                let mut off = 0;
+                let mut wrote_all = true;
+                while off < data.len() {
+                    let n = [8usize, 13, 100, 4096, 70_000][rw.gen_range(0..5)].min(data.len() - off);
+                    if wr.write_all(ctx, &data[off..off + n]).await.is_err() {
+                        wrote_all = false;
                         break;
                     }
+                    off += n;
+                    if rw.gen_bool(0.3) {
+                        let _ = wr.flush(ctx).await;
+                    }
                 }
-                Err(_) => break,
+                if wrote_all {
+                    sh.ev(Ev::ClientClosedWrite { serial, bytes: data.len() });
+                }
+                drop(wr);
+                Ok(())
+            });
+            // read the response until end of stream
+            let mut got = vec![];
+            let mut eos = false;
+            loop {
+                let want = [8usize, 64, 4000][r.gen_range(0..3)];
+                match rd.read_exact(ctx, want).await {
+                    Ok(chunk) => {
+                        let short = chunk.len() < want;
+                        got.extend(chunk);
+                        if short {
+                            eos = true;
+                            break;
+                        }
+                    }
+                    Err(_) => break,
+                }
             }
-        }
+            drop(rd);
+            Ok((got, eos))
+        })
+        .await;
+        let Ok((got, eos)) = res else { return Ok(()) };
         let ok = verify_words(&got, 2, c, serial, 0).map_err(|e| sh.fail("foreign-or-reordered-data", format!("client of capability {c}, stream {serial}: response {e}"))).is_ok();
         sh.ev(Ev::ClientGotResponse { serial, bytes: got.len(), ok, eos });
         sh.open_client[slot].fetch_sub(1, Ordering::SeqCst);
-        drop(rd);
     }
     Ok(())
 }
@@ -304,11 +328,25 @@ fn run_pair(rep: &mut Report, seed: u64, cfg: &CaseCfg, replay: vcommon::Value) 
         crate::transport::leak_on_timeout(3600, fut).await.is_some()
     });
     if !finished {
+        // The frame-count limit is shared by all streams of a connection and a pipelined OPEN / CLOSE of a stream whose previous
+        // transient stream is still in use parks in the multiplexer: with fewer frame slots than twice the number of reusable
+        // streams (plus one for data) two well-behaved sides can block each other (head-of-line blocking; C14 promises no
+        // liveness). Such a deadlock is counted, not judged; with enough slots a deadlock means data that is never delivered.
+        let streams: u64 = cfg.caps.iter().chain(cfg.rev_caps.iter()).map(|(a, b)| (*a).min(*b) as u64).sum();
+        let need = 2 * streams + 2;
+        if cfg.mux_a.read_frame_count < need || cfg.mux_b.read_frame_count < need {
+            std::mem::forget(rt);
+            rep.count("pair_cases_blocked_by_tiny_frame_count_limits");
+            return;
+        }
         std::mem::forget(rt);
-        rep.violation("mux-deadlock||pair".to_string(), format!("two cooperating muxes stopped making progress (virtual-time deadlock); caps {:?}", cfg.caps), replay.clone());
+        let tail: Vec<String> = { let l = sh.log.lock().unwrap(); l.iter().rev().take(25).rev().map(|e| format!("{e:?}")).collect() };
+        let open: Vec<(i64, i64)> = (0..ncaps).map(|c| (sh.open_client[c].load(Ordering::SeqCst), sh.open_server[c].load(Ordering::SeqCst))).collect();
+        rep.violation("mux-deadlock||pair".to_string(), format!("two cooperating muxes stopped making progress (virtual-time deadlock); caps {:?} reverse caps {:?} mux_a {:?} mux_b {:?} scripts {:?} / {:?}; clients/cap {} streams/client {}; open (client,server) per capability {:?}; last events {:?}", cfg.caps, cfg.rev_caps, cfg.mux_a, cfg.mux_b, cfg.script_a, cfg.script_b, cfg.clients_per_cap, cfg.streams_per_client, open, tail), replay.clone());
         rep.finish_and_exit();
     }
     drop(rt);
+    rep.count("pair_cases_completed");
     // offline checks over the log
     let log = sh.log.lock().unwrap().clone();
     let pos = |p: &dyn Fn(&Ev) -> bool| log.iter().position(|e| p(e));
